@@ -272,7 +272,7 @@ def run(ctx: Ctx) -> None:
                     # label policy ALLOW_ANY with a confusing but accurate detector: TPs whose estimate label differs
                     # from the ground truth's label (per-label rates mix the two label sets)
                     task = "detection"
-                    base = gen_scenario(r, task=task, n_frames=r.randint(2, 4), fp_share=0.0, overrides={"matching_label_policy": "ALLOW_ANY"}, det=dict(p_det=1.0, pos_sig=0.02, yaw_sig=0.05, p_conf=0.7, p_unknown=0.0, force_name=r.choice(["car", "pedestrian", "bicycle"])))
+                    base = gen_scenario(r, task=task, n_frames=r.randint(2, 4), fp_share=0.0, overrides={"matching_label_policy": "ALLOW_ANY"}, det=dict(p_det=1.0, pos_sig=0.02, yaw_sig=0.05, p_conf=0.9, p_unknown=0.0, force_name="car"), categories=["car", "truck", "vehicle.bus", "bus"], target=["car", "truck", "bus"], merge=False)
                     for pf in base.passfail:
                         pf["matching_threshold_list"] = [5.0 for _ in pf["target_labels"]]
                 if idx % 3 == 0 and task == "detection":
